@@ -1,7 +1,7 @@
 #!/bin/sh
 # confirm_seed.sh NAME PROP "needs..."  : confirm /tmp/seed_out/NAME in a scratch worktree of /repo HEAD and keep it under /verif/seeded/NAME
 NAME="$1"; PROP="$2"; NEEDS="$3"
-SRC=/tmp/seed_out/$NAME
+SRC=${SEED_SRC:-/tmp/seed_out}/$NAME
 WT=/tmp/confirm_$NAME
 DEMO=$(ls $SRC | grep -E '^demo.*\.py$' | head -1)
 [ -f "$SRC/patch.diff" ] && [ -n "$DEMO" ] || { echo "missing patch/demo in $SRC"; exit 2; }
